@@ -96,6 +96,14 @@ func cmdC03(args []string) {
 				rb := make([]byte, 1+r.Intn(40))
 				r.Read(rb)
 				junks = append(junks, rb, append([]byte(me), rb...))
+				// a doubled end marker behind 16 "trailer" bytes of every sign: what precedes the marker
+				// is read as an int64 offset and a uint32 length
+				for _, fillb := range []byte{0xff, 0x80, 0x00, 0x7f} {
+					junks = append(junks, append(bytes.Repeat([]byte{fillb}, 16), []byte(me+me)...))
+				}
+				rb16 := make([]byte, 16)
+				r.Read(rb16)
+				junks = append(junks, append(rb16, []byte(me+me)...))
 				// VERBATIM copies of earlier, different root records: complete and self-consistent in
 				// every field except that their trailer offset names the place they came from
 				seen := 0
